@@ -169,6 +169,28 @@ def tsan_aux(tier, which="pipe"):
     return info, viol
 
 
+UNMODELLED = ("pthread_rwlock", "pthread_spin", "pthread_barrier", "sem_wait", "sem_post", "sem_timedwait", "__atomic_wait", "__atomic_notify", "futex",
+              "pthread_mutex_timedlock", "pthread_mutex_clocklock", "pthread_once", "__gthread_once", "call_once", "_M_wait", "__platform_wait")
+
+
+def unmodelled_sync_primitives(exe_path):
+    """Symbol scan of the pipeline's own objects: the scheduler owns pthread_create/join, mutex lock/trylock/unlock and condvar
+    wait/timedwait/clockwait/signal/broadcast. Anything else that can block or publish (rwlocks, spinlocks, barriers, semaphores,
+    C++20 atomic wait/notify, call_once) would run outside its control."""
+    import glob
+    import subprocess
+    d = os.path.dirname(exe_path)
+    objdir = os.path.join(c.BUILD, "obj", os.path.basename(d).rsplit("-", 1)[0])
+    found = set()
+    for o in glob.glob(os.path.join(objdir, "kernel_multi_aes_multi*.o")):
+        r = subprocess.run(["nm", "-u", "-C", o], stdout=subprocess.PIPE, text=True)
+        for line in r.stdout.splitlines():
+            for u in UNMODELLED:
+                if u in line:
+                    found.add(line.strip().split(" ", 1)[-1][:60])
+    return sorted(found)
+
+
 def run(pid, tier, replay=None):
     t0 = time.time()
     seed = c.seed_from_env()
@@ -186,6 +208,9 @@ def run(pid, tier, replay=None):
 
         if replay:
             return do_replay(pid, replay, exe)
+        unseen = unmodelled_sync_primitives(exe(2, "none"))
+        if unseen:
+            raise c.CannotDecide("the pipeline objects use synchronisation the controlled scheduler does not model (%s): interleavings would not be under control" % ", ".join(unseen))
         plan = cfgs_thorough() if tier == "thorough" else cfgs_quick()
         tmpd = os.path.join(c.BUILD, "tmp", "%s-%d" % (pid, os.getpid()))
         os.makedirs(tmpd, exist_ok=True)
